@@ -49,6 +49,14 @@ Definition CL_NOTIFY : Z := 3.
 Definition CL_FRESH : Z := 4.
 Definition CL_SAME : Z := 5.
 Definition CL_SHAPE : Z := 6.
+Definition CL_STALL : Z := 7.
+(* STALL: while one notification write of AddEntity / RemoveEntity to a subscribed peer is stalled
+   inside the connection writer, another peer's discovery read (or a peer's disconnect) did not
+   complete: it returned only after the write had been released (observation Blocked).  "At every
+   moment the reply to a detailed-discovery read ..." presupposes that the read is answered;
+   "sends each subscribed peer exactly one notification" must not make the device wait for one
+   peer's connection.  [During add e q i] is judged as the entity operation on the first [Len n]
+   observations, then [i] on the rest -- the sequential composition, whatever peer q is stalled. *)
 
 Record mst := {
   m_objs : list (N * eobj);
@@ -262,6 +270,11 @@ Definition mon_base (m : mst) (o : op) (out : list obs) : mst * verdict :=
           (m1, judge_reply (m_members m1) out (exp_reply_of m1 p l))
       end
   | Burst _ _ => expect m out BadBurst
+  | Reconnect p =>
+      expect {| m_objs := m_objs m; m_ids := m_ids m; m_members := m_members m;
+                m_subs := filter (fun x : N * N => negb (N.eqb (fst x) p)) (m_subs m);
+                m_thr := m_thr m; m_rds := m_rds m |} out OkDone
+  | During _ _ _ _ => expect m out BadBurst
   end.
 
 (* the calls of a burst, one observation each *)
@@ -284,6 +297,16 @@ Definition mon (m : mst) (o : op) (out : list obs) : mst * verdict :=
            | Some _ => mon_calls m (map (bcall_op e) calls) out
            end
       else expect m out BadBurst
+  | During add e q i =>
+      match out with
+      | Len n :: rest =>
+          let '(m1, v1) := mon_base m (ent_op add e) (firstn (N.to_nat n) rest) in
+          let b := skipn (N.to_nat n) rest in
+          let '(vb, b') := match b with Blocked :: b' => ([CL_STALL], b') | _ => ([], b) end in
+          let '(m2, v2) := mon_base m1 (inner_op i) b' in
+          (m2, v1 ++ vb ++ v2)
+      | _ => (m, [CL_SHAPE])
+      end
   | _ => mon_base m o out
   end.
 
